@@ -281,6 +281,40 @@ func checkC14(r *Run) {
 			return descgen.Rename(e, n+"bothkeys")
 		})
 	}
+	// options given through BOTH channels with different values: which one wins must not vary from run to run
+	for _, n := range []string{"k9", "k1"} {
+		n := n
+		reqs = append(reqs, func() *descgen.Entry {
+			e := descgen.CuratedByName(n)
+			occ := descgen.Occurrences(e.File, e.Cfg.Types)
+			pick := func(i int) string { return occ[(i*5+1)%len(occ)].Path }
+			c := e.Cfg
+			c.ExcludeFields = append(c.ExcludeFields, pick(1))
+			c.ComputedFields = append(c.ComputedFields, pick(2))
+			c.RequiredFields = append(c.RequiredFields, pick(3))
+			c.SensitiveFields = append(c.SensitiveFields, pick(4))
+			c.Sort, c.SortSet = true, true
+			e.ExtraParams = []string{"exclude_fields=" + pick(5) + "+" + pick(6), "computed_fields=" + pick(7), "required_fields=" + pick(8), "sensitive=" + pick(9), "sort=false"}
+			e.Tags = append(e.Tags, "both-channels")
+			return descgen.Rename(e, n+"bothchannels")
+		})
+	}
+	// empty entries in the set-like lists (a doubled, leading or trailing `+`, an empty YAML item)
+	for _, n := range []string{"k9", "k5"} {
+		n := n
+		reqs = append(reqs, func() *descgen.Entry {
+			e := descgen.CuratedByName(n)
+			occ := descgen.Occurrences(e.File, e.Cfg.Types)
+			pick := func(i int) string { return occ[(i*7+2)%len(occ)].Path }
+			c := e.Cfg
+			c.ExcludeFields = append(c.ExcludeFields, pick(1), "", pick(2))
+			c.ComputedFields = append(c.ComputedFields, pick(3), "", pick(4))
+			c.RequiredFields = append(c.RequiredFields, pick(5), "", pick(6))
+			c.SensitiveFields = append(c.SensitiveFields, pick(7), "", pick(8))
+			e.Tags = append(e.Tags, "empty-list-entries")
+			return descgen.Rename(e, n+"emptyentries")
+		})
+	}
 	nr := r.pick(4, 90)
 	for i := 0; i < nr; i++ {
 		i := i
@@ -305,7 +339,7 @@ func checkC14(r *Run) {
 			if k >= runs {
 				// permuted YAML keys / set-like lists / `+` lists, some options moved to the command line
 				c.Delivery.Shuffle = rand.New(rand.NewSource(r.Seed*1009 + int64(ri)*31 + int64(k)))
-				if k%2 == 0 {
+				if k%2 == 0 && len(e.ExtraParams) == 0 {
 					c.Delivery.CLI = map[string]bool{"exclude_fields": true, "computed_fields": true, "required_fields": true, "sensitive_fields": true, "types": true}
 				}
 				c.Tags = append(c.Tags, "shuffled-config")
@@ -327,6 +361,18 @@ func checkC14(r *Run) {
 	pipeline.Parallel(len(all), func(i int) { r.WS.Generate(all[i]) })
 	judge := func(g grp, label string, cases []*pipeline.Case) {
 		hashes := map[string][]string{}
+		failed := 0
+		for _, c := range cases {
+			if c.Plugin.Exit != 0 || c.Plugin.Err != "" {
+				failed++
+			}
+		}
+		if failed == len(cases) && strings.HasSuffix(g.name, "emptyentries") {
+			// an empty list entry may be rejected, as long as every order is
+			r.Evaluations += len(cases)
+			r.Counters["empty-entry-configs-rejected-consistently"]++
+			return
+		}
 		for _, c := range cases {
 			r.Evaluations++
 			if c.Plugin.Exit != 0 || c.Plugin.Err != "" {
